@@ -4,10 +4,6 @@ pub open spec fn le_len(w: Seq<u8>) -> Option<int> {
     else if w.len() >= 2 && w[0] == 13u8 && w[1] == 10u8 { Some(2) }
     else { None }
 }
-pub uninterp spec fn utf8_ok(b: Seq<u8>) -> bool;
-pub uninterp spec fn utf8_chars(b: Seq<u8>) -> Seq<char>;
-pub uninterp spec fn trim_spec(s: Seq<char>) -> Seq<char>;
-pub uninterp spec fn hex_spec(s: Seq<char>) -> Option<usize>;
 /// RFC 9112 7.1: chunk-size is the HEXDIG run before an optional `;ext`; surrounding blanks tolerated
 pub open spec fn chunk_size_spec(line: Seq<u8>) -> Option<usize> {
     let i = first_idx(line, 59u8);
